@@ -48,9 +48,9 @@ _e(FI, "assert:Overflow:Sub", "{Iterator::sum(Iterator::map([]::iter(_),closure{
    "each word has len(word)+len(whitespace) >= 1)")
 _e(FI, "assert:Overflow:Add", "{phi:usize} ; {str::len(_?Some.0) k}", ["C17.R1"],
    "offset + line.len() + 1 <= text.len() + 1 (lines are disjoint pieces of text separated by one byte)")
-_e(FI, "call:IndexMut::index_mut", "&mut:Vec,Iterator::next!(_)?Some.0", ["C17.R1", "C17.R2"],
+_e(FI, "call:IndexMut::index_mut", "&mut:Vec,Iterator::next!(_)?Some.0", ["C17.R1", "C17.R2", "C17.R3"],
    "recorded indices are offsets of bytes inside `text` (< text.len() = bytes.len())")
-_e(FI, "call:Result::unwrap", "String::from_utf8(phi:Vec)", ["C17.R2"],
+_e(FI, "call:Result::unwrap", "String::from_utf8(phi:Vec)", ["C17.R2", "C17.R3", "C11.R1", "C11.R3"],
    "only ASCII b'\\n' is stored, at positions holding ASCII b' ': the buffer stays valid UTF-8")
 
 UF = "crate::refill::unfill"
@@ -79,7 +79,7 @@ _e("crate::termwidth::termwidth", "extern:terminal_size::terminal_size", "termin
 
 UB = "crate::word_separators::find_words_unicode_break_properties"
 _e(UB, "extern:unicode_linebreak::linebreaks", "unicode_linebreak::linebreaks", ["A-lb"], "total iterator constructor")
-_e(UB + "::{closure#1}", "call:Index::index", "^,RangeTo{end:{$2.0}}", ["A-lb"],
+_e(UB + "::{closure#1}", "call:Index::index", "^,RangeTo{end:{$2.0}}", ["A-lb", "C11.R6"],
    "idx is a break opportunity of `stripped` reported by linebreaks(&stripped): a char boundary in (0, len]")
 _e(UB + "::{closure#2}", "call:Index::index", "^,Range{start:{^},end:{_?Some.0.0}}", ["C11.R2", "C11.R7"],
    "orig_idx is item .0 of line.char_indices() yielded through the index map (closure#0); start is 0 or an earlier "
@@ -131,6 +131,8 @@ _e(OF, "call:Index::index", "smawk::online_column_minima(0.0,Vec::len(phi:Vec),c
 _e(OF, "call:Index::index", "$1,Range{start:{Index::index(smawk::online_column_minima(_,_,_),phi:usize).0},end:{phi:usize}}", ["A-smawk", "C06.R3"],
    "prev = minima[pos].0 < pos <= fragments.len()")
 _e(OF, "loop", "non-iterator", ["A-smawk", "C06.R3"], "pos strictly decreases to 0 (DECREASING)")
+_e(OF, "call:Vec::with_capacity", "crate::wrap_algorithms::optimal_fit::LineNumbers::get(crate::wrap_algorithms::optimal_fit::LineNumbers::new([]::len(_)),[]::len($1),smawk::online_column_minima(0.0,Vec::len(_),closure{_,_,_,_,_,_}))",
+   ["A-smawk", "C03.R2"], "the capacity hint is the line number of the last fragment, at most fragments.len()")
 OC = OF + "::{closure#0}"
 _e(OC, "assert:BoundsCheck", "{$3} ; {[]::len($2)}", ["A-smawk"], "smawk calls m(minima, i, j) with minima.len() > i")
 _e(OC, "assert:BoundsCheck", "{$4 k} ; {[]::len(^)}", ["A-smawk"], "i < j < size = fragments.len() + 1", max=3)
